@@ -79,4 +79,11 @@ func init() {
 		_ = fs.Parse(args)
 		return graphfam.RunAllTypes(*out, *chunk)
 	}
+	commands["ge-fileedits"] = func(args []string) error {
+		fs := flag.NewFlagSet("ge-fileedits", flag.ExitOnError)
+		out := fs.String("out", "", "trace ndjson")
+		maxp := fs.Int("maxparams", 60, "parameters edited per file")
+		_ = fs.Parse(args)
+		return graphfam.RunFileEdits(fs.Args(), *out, *maxp)
+	}
 }
